@@ -240,10 +240,17 @@ pub fn traverse_all(sfnt: &Sfnt, font: &Font, checker: &mut RefChecker, summary:
         };
 
         // run 1: the table as it is; checks references, reports read errors
+        // (read-fonts' traversal code is not hardened: on malformed data it can panic)
         checker.begin_table(&t);
-        let mut walker = walk::Walker::new(checker);
-        walker.table(&*table);
-        let nodes = walker.nodes();
+        let walked = std::panic::catch_unwind(std::panic::AssertUnwindSafe(|| {
+            let mut walker = walk::Walker::new(checker);
+            walker.table(&*table);
+            walker.nodes()
+        }));
+        let Ok(nodes) = walked else {
+            checker.issues.add(&format!("reader-panic:{t}"), format!("read-fonts panicked while traversing '{t}' ({} bytes)", bytes.len()));
+            continue;
+        };
         summary.fields_traversed += nodes;
 
         // run 2: the truncation probe
@@ -257,10 +264,12 @@ pub fn traverse_all(sfnt: &Sfnt, font: &Font, checker: &mut RefChecker, summary:
         let padded_bytes = &probe_buf[..bytes.len() + PROBE_PADDING];
         if let Some(Ok(padded)) = open_for_traversal(&tag, FontData::new(padded_bytes), font) {
             let mut probe = DigestOnly::default();
-            let mut walker = walk::Walker::new(&mut probe);
-            walker.set_node_limit(nodes * 2 + 1000);
-            walker.table(&*padded);
-            if probe.digest != checker.digest.digest {
+            let probed = std::panic::catch_unwind(std::panic::AssertUnwindSafe(|| {
+                let mut walker = walk::Walker::new(&mut probe);
+                walker.set_node_limit(nodes * 2 + 1000);
+                walker.table(&*padded);
+            }));
+            if probed.is_err() || probe.digest != checker.digest.digest {
                 let at = first_difference(&*table, &*padded);
                 checker.issues.add(
                     &format!("truncated:{t}"),
@@ -281,9 +290,11 @@ thread_local! {
 fn first_difference<'a, 'b>(a: &(dyn SomeTable<'a> + 'a), b: &(dyn SomeTable<'b> + 'b)) -> String {
     fn trace<'t>(table: &(dyn SomeTable<'t> + 't)) -> String {
         let mut dump = walk::Dump { depth: 0, out: String::new() };
-        let mut walker = walk::Walker::new(&mut dump);
-        walker.set_node_limit(200_000);
-        walker.table(table);
+        let _ = std::panic::catch_unwind(std::panic::AssertUnwindSafe(|| {
+            let mut walker = walk::Walker::new(&mut dump);
+            walker.set_node_limit(200_000);
+            walker.table(table);
+        }));
         dump.out
     }
     let (ta, tb) = (trace(a), trace(b));
